@@ -50,9 +50,9 @@ def plan(tier, seed):
     for fam in fams:
         for impl in ('c', 'py'):
             specs.append(dict(label='%s-%s' % (fam, impl), family=fam,
-                              impl=impl, schedules=260 if q else 2500,
+                              impl=impl, schedules=260 if q else 8000,
                               seed=seed, tier=tier, variant='mon',
-                              timeout=900 if q else 3000))
+                              timeout=900 if q else 7200))
     return specs
 
 
